@@ -22,6 +22,10 @@ for nm in names:
             res[nm] = {'error': 'patch does not apply: ' + r.stdout[-200:]}
             continue
         r = subprocess.run([os.path.join(V, 'pv'), 'all'], env=dict(os.environ, PV_REPO=tmp), cwd=V, stdout=subprocess.PIPE, stderr=subprocess.STDOUT, text=True)
+        for pid_, tier_ in meta.get('extra_checks', []):
+            # changes in cfg-gated code (the AVX2 packed field) are only visible to the thorough tier, which analyses the other builds too
+            r2 = subprocess.run([os.path.join(V, 'pv'), 'check', pid_, '--tier', tier_], env=dict(os.environ, PV_REPO=tmp), cwd=V, stdout=subprocess.PIPE, stderr=subprocess.STDOUT, text=True)
+            r.stdout += r2.stdout
         if 'Traceback' in r.stdout or 'no verdict' in r.stdout:
             res[nm] = {'error': 'checker crashed / no verdict: ' + r.stdout[-300:]}
             print(nm, 'CHECKER-ERROR', r.stdout[-300:], flush=True)
